@@ -41,6 +41,7 @@ def main(argv=None):
     ap.add_argument("--harness", action="append", help="only harnesses whose name contains this")
     ap.add_argument("--jobs", type=int, default=None)
     ap.add_argument("--no-evidence", action="store_true")
+    ap.add_argument("--replay-dir", default=None, help="where replay files go (default: <verif>/replays)")
     ap.add_argument("--verbose", "-v", action="store_true")
     ap.add_argument("--limit-family", type=int, default=None)
     ap.add_argument("--all-violations", action="store_true",
@@ -200,12 +201,13 @@ def run_property(args):
     for d in xc_dis:
         errors.append(f"engine-vs-CPython disagreement: {json.dumps(d)[:600]}")
     # ---------------- replays + verdict lines
-    os.makedirs(os.path.join(ROOT, "replays", prop), exist_ok=True)
+    rdir = args.replay_dir or os.path.join(ROOT, "replays")
+    os.makedirs(os.path.join(rdir, prop), exist_ok=True)
     lines = []
     nviol = 0
     for (hname, params, name, o, rep) in violations:
         nviol += 1
-        fn = os.path.join(ROOT, "replays", prop, safe(f"{hname}__{json.dumps(params, sort_keys=True)}__{name}") + ".json")
+        fn = os.path.join(rdir, prop, safe(f"{hname}__{json.dumps(params, sort_keys=True)}__{name}") + ".json")
         confirmed = bool(rep and rep.get("confirmed"))
         model_inputs = None
         if rep and rep.get("attempts"):
